@@ -9,6 +9,7 @@ import (
 	"math"
 	"sort"
 	"sync"
+	"time"
 
 	"github.com/Tom-Johnston/mamba/graph"
 	"github.com/Tom-Johnston/mamba/graph/search"
@@ -176,10 +177,41 @@ var hPreds = []hPred{
 	}},
 }
 
+// extraPreds are hereditary predicates used by C04's single-pass save/load sweep only (not part of C03's configurations).
+var extraPreds = []hPred{
+	{"at-most-10-non-edges", func(n int, e func(i, j int) bool) bool {
+		non := 0
+		for a := 0; a < n; a++ {
+			for b := 0; b < a; b++ {
+				if !e(a, b) {
+					non++
+				}
+			}
+		}
+		return non <= 10
+	}},
+	{"at-most-8-edges", func(n int, e func(i, j int) bool) bool {
+		m := 0
+		for a := 0; a < n; a++ {
+			for b := 0; b < a; b++ {
+				if e(a, b) {
+					m++
+				}
+			}
+		}
+		return m <= 8
+	}},
+}
+
 func predByName(name string) *hPred {
 	for i := range hPreds {
 		if hPreds[i].name == name {
 			return &hPreds[i]
+		}
+	}
+	for i := range extraPreds {
+		if extraPreds[i].name == name {
+			return &extraPreds[i]
 		}
 	}
 	return nil
@@ -525,6 +557,132 @@ func evalHugeM(hc hugeMCase) *Failure {
 	return nil
 }
 
+// searches on 12..32 vertices for families so small that their classes are known in closed form (the labelling
+// code then works on cells of more than 20 vertices): star + isolated vertices (n classes, one per edge count),
+// matchings (floor(n/2)+1 classes), graphs with at most two edges (4 classes for n >= 4).
+type tinyCase struct {
+	N     int    `json:"n"`
+	Fam   string `json:"family"` // star | matching | two-edges
+	Place string `json:"placement"`
+}
+
+func tinyHolds(fam string, g *graph.DenseGraph) bool {
+	deg := g.Degrees()
+	m := g.M()
+	switch fam {
+	case "star": // some vertex meets every edge
+		for _, d := range deg {
+			if d == m {
+				return true
+			}
+		}
+		return m == 0
+	case "matching":
+		for _, d := range deg {
+			if d > 1 {
+				return false
+			}
+		}
+		return true
+	case "two-edges":
+		return m <= 2
+	}
+	return false
+}
+
+func evalTiny(tc tinyCase) *Failure {
+	n := tc.N
+	mk := func(cl, what string) *Failure {
+		return &Failure{Class: "search/closed-form-family/" + cl, What: fmt.Sprintf("n=%d family %s as %s: %s", n, tc.Fam, tc.Place, what), Kind: "search-tiny", Replay: tc}
+	}
+	want := map[string]bool{}
+	switch tc.Fam {
+	case "star":
+		for k := 0; k < n; k++ {
+			want[fmt.Sprintf("star with %d edges", k)] = true
+		}
+	case "matching":
+		for k := 0; 2*k <= n; k++ {
+			want[fmt.Sprintf("matching with %d edges", k)] = true
+		}
+	case "two-edges":
+		want["0 edges"], want["1 edge"] = true, n >= 2
+		if n >= 3 {
+			want["path with 2 edges"] = true
+		}
+		if n >= 4 {
+			want["2 disjoint edges"] = true
+		}
+		if n < 2 {
+			delete(want, "1 edge")
+		}
+	}
+	fn := func(g *graph.DenseGraph) bool { return !tinyHolds(tc.Fam, g) }
+	var it *search.GraphIterator
+	switch tc.Place {
+	case "preprune":
+		it = search.WithPruning(n, 0, 1, fn, noPrune)
+	case "prune":
+		it = search.WithPruning(n, 0, 1, noPrune, fn)
+	default:
+		it = search.WithPruning(n, 0, 1, fn, fn)
+	}
+	seen := map[string]bool{}
+	var f *Failure
+	msg, pan := try(func() {
+		for it.Next() {
+			g := it.Value()
+			if g == nil || g.N() != n {
+				f = mk("malformed-value", "value is nil or has the wrong number of vertices")
+				return
+			}
+			if w := selfConsistentBig(g); w != "" {
+				f = mk("malformed-value", w)
+				return
+			}
+			if !tinyHolds(tc.Fam, g) {
+				f = mk("yields-class-violating-predicate", fmt.Sprintf("a graph with %d edges and degrees %v", g.M(), g.Degrees()))
+				return
+			}
+			key := ""
+			maxd := 0
+			for _, d := range g.Degrees() {
+				if d > maxd {
+					maxd = d
+				}
+			}
+			switch tc.Fam {
+			case "star":
+				key = fmt.Sprintf("star with %d edges", g.M())
+			case "matching":
+				key = fmt.Sprintf("matching with %d edges", g.M())
+			case "two-edges":
+				key = map[[2]int]string{{0, 0}: "0 edges", {1, 1}: "1 edge", {2, 2}: "path with 2 edges", {2, 1}: "2 disjoint edges"}[[2]int{g.M(), maxd}]
+			}
+			if seen[key] {
+				f = mk("class-yielded-twice", key)
+				return
+			}
+			seen[key] = true
+			if len(seen) > len(want)+2 {
+				return
+			}
+		}
+	})
+	if pan {
+		return mk("panic", msg)
+	}
+	if f != nil {
+		return f
+	}
+	for k := range want {
+		if !seen[k] {
+			return mk("class-missing", fmt.Sprintf("%s is not yielded (%d of %d classes yielded)", k, len(seen), len(want)))
+		}
+	}
+	return nil
+}
+
 func runC03(c *Ctx) {
 	c.Level = "exploration"
 	c.Rule = "every configuration (n<=7 (8 thorough), split modulus m in {1..7,64} with all shards a in [0,m), hereditary predicate in {triangle-free, K4-free, C4-free, claw-free, maxdeg<=2, maxdeg<=3, forest, bipartite, independence<=2} placed as preprune / prune / both, shards run sequentially or interleaved): every yielded value is a well-formed graph on n vertices, no isomorphism class (explicit orbit sweep, no canonical-form code) is yielded twice within or across shards, and the yielded classes are exactly those satisfying the predicate; all shards of n=9 (m=1,5) and n=10 (m=64) together: pairwise distinct canonical forms and the published number of graphs; non-trivial = configuration with n >= 4"
@@ -550,6 +708,30 @@ func runC03(c *Ctx) {
 			}
 		})
 		c.SetCount("huge_modulus_cases", int64(len(hcs)))
+	}
+	{
+		var tcs []tinyCase
+		ns := []int{12, 16, 20, 21, 22, 23, 24, 28}
+		if c.Thorough() {
+			ns = append(ns, 32, 40, 48)
+		}
+		for _, n := range ns {
+			for _, fam := range []string{"star", "matching", "two-edges"} {
+				for _, pl := range []string{"preprune", "prune"} {
+					tcs = append(tcs, tinyCase{n, fam, pl})
+				}
+			}
+		}
+		c.parFor(int64(len(tcs)), 1, func(lo, hi int64) {
+			for _, tc := range tcs[lo:hi] {
+				tc := tc
+				c.CheckTimed(600*time.Second, func() *Failure { return evalTiny(tc) }, func() *Failure {
+					return &Failure{Class: "search/closed-form-family/does-not-terminate", What: fmt.Sprintf("%v still running after 600 s", tc), Kind: "search-tiny", Replay: tc, NoRepro: true}
+				})
+				c.Nontrivial(1)
+			}
+		})
+		c.SetCount("closed_form_family_searches", int64(len(tcs)))
 	}
 	cfgs := c03Configs(maxN)
 	var shards int64
@@ -584,6 +766,13 @@ func replayC03(kind string, raw json.RawMessage) *Failure {
 			return a.first
 		}
 		return nil
+	}
+	if kind == "search-tiny" {
+		var tc tinyCase
+		if err := json.Unmarshal(raw, &tc); err != nil {
+			return &Failure{Class: "replay/bad-file", What: err.Error()}
+		}
+		return evalTiny(tc)
 	}
 	if kind == "search-huge-m" {
 		var hc hugeMCase
